@@ -3,7 +3,7 @@
    Model: Model/CacheM.v (Cache value-level; LRUCache store-level with the sentinel ring).
    Histories are lists of `item`s: Call c ds (ds = clock increments seen by the reads of the
    call) and Adv d; `mono` = the clock never goes backwards. *)
-From DV Require Import Base.Prelude Model.CacheM.
+From DV Require Import Base.Prelude Model.CacheM Model.CacheSpecM.
 From DV Require Import Proofs.CacheRing Proofs.CacheDict Proofs.CacheLru Proofs.CacheSpec
   Proofs.CacheThm Proofs.CacheSimple Proofs.CacheBasic Proofs.CacheWalk Proofs.CacheConc Proofs.CacheOrder Proofs.CacheGuard.
 From DV Require Model.CacheSkel Model.ResolM Proofs.ResolChain.
